@@ -248,7 +248,8 @@ class C14(Check):
                     seen_default = seen_default or has_default
                     has_default = seen_default
                 if has_default:
-                    p['default'] = {'value': vals[draw(s_idx) % len(vals)]}
+                    # `x: int = None` is the usual way to write 'may be omitted'; it does not make an explicit null conform
+                    p['default'] = {'value': None if draw(s_idx) % 3 == 0 else vals[draw(s_idx) % len(vals)]}
                 params.append(p)
             params.sort(key=lambda q: 0 if q['kind'] == 'PK' else 1)
             excluded = draw(st.integers(0, 3)) == 0
@@ -261,6 +262,8 @@ class C14(Check):
             def value_for(q):
                 if validator == 'pydantic':
                     vals = TYPE_VALUES[q['type']]
+                    if draw(s_idx) % 6 == 0:
+                        return None      # an explicit null
                     if draw(s_bool):
                         return vals[draw(s_idx) % 3]      # the first entries of each alphabet conform or are coercible
                 else:
